@@ -1,17 +1,66 @@
 import Tpp.Driver.Proto
 import Tpp.Model.Strings
+import Tpp.Model.StringOps
+import Tpp.Model.Ctors
 import Tpp.Ref.Render
 /-!
 Driver slice `Strings` (C17).
   `Z <hex>`                      string(ptr, len)          → `<to_string hex> <size>`
   `z n <n elems> m <m elems>`    a, b                      → `<to_string a> <to_string b> <to_string (a+b)> <to_string (a+=b)>`
   `w <bits> n <n elems>`         fresh terminal << string  → `<wire hex> / <to_string hex>`
+  `P op ; op ; …`                a program over `class string` on registers 0..3 (register numbers are taken mod 4):
+       `cz r <hex>` string(char const*) (a NUL is appended to the memory)   `cl r <hex>` string(ptr, len)
+       `cs r <hex>` string(std::string)   `ca r <hex> <attr>` string(std::string, attribute)   `cn r n <elem>` string(n, elem)
+       `ci r n <elems>` string(first, last)   `il r n <elems>` string{…} (n ≤ 3)   `ts r <hex>` ""_ts
+       `ae r <elem>` r += elem   `as r q` r += q   `pe r q <elem>` r = q + elem   `ps r q t` r = q + t
+       `ie r pos <elem>` insert   `ir r pos q a b` range insert   `ea r` erase()   `ef r pos` erase(it)   `er r a b` erase(it, it)
+       `sw r q` swap   `ix r i <elem>` r[i] = elem
+     → per register `<size> <to_string hex> ; <elem> ; <elem> …`, joined by ` | `, then ` # k=1` (accessors agree)
+  `G g1 b cs` glyph(byte, charset)   `G g2 t0` / `G g3 t0 t1` / `G g4 t0 t1 t2` glyph(char8_t const(&)[n])
+  `G gp <hex>` glyph(char const*) on that memory followed by three NULs   `G e1 b <attr>` element(byte, attribute)
+     → the glyph / element, then ` / <to_string of a one-element string holding it>`
 -/
 namespace Tpp.Driver.Strings
 open Tpp Tpp.Driver
 
 def rdTwo : Rd (List Element × List Element) := do
   let n ← Rd.num; let a ← rdElements n; let m ← Rd.num; let b ← rdElements m; return (a, b)
+
+/-- parse one op of a `P` program into the polymorphic machine, with the element contents built by `mk` -/
+def rdSeqOp : Rd (Option (SeqOp Element)) := do
+  let w ← Rd.word
+  let R : Rd Nat := do let n ← Rd.num; return n % 4
+  match w with
+  | "cz" => do let r ← R; let h ← Rd.word; return some (.set r (TString.ofCStr (unhex h ++ [0])))
+  | "cl" => do let r ← R; let h ← Rd.word; return some (.set r (TString.ofBytes (unhex h)))
+  | "cs" => do let r ← R; let h ← Rd.word; return some (.set r (TString.ofBytes (unhex h)))
+  | "ca" => do let r ← R; let h ← Rd.word; let a ← rdAttr; return some (.set r (TString.withAttr a (TString.ofBytes (unhex h))))
+  | "cn" => do let r ← R; let n ← Rd.num; let e ← rdElement; return some (.set r (List.replicate n e))
+  | "ci" => do let r ← R; let n ← Rd.num; let es ← rdElements n; return some (.set r es)
+  | "il" => do let r ← R; let n ← Rd.num; let es ← rdElements n; return some (.set r (es.take 3))
+  | "ts" => do let r ← R; let h ← Rd.word; return some (.set r (TString.ofBytes (unhex h)))
+  | "ae" => do let r ← R; let e ← rdElement; return some (.addE r e)
+  | "as" => do let r ← R; let q ← R; return some (.addS r q)
+  | "pe" => do let r ← R; let q ← R; let e ← rdElement; return some (.plusE r q e)
+  | "ps" => do let r ← R; let q ← R; let t ← R; return some (.plusS r q t)
+  | "ie" => do let r ← R; let p ← Rd.num; let e ← rdElement; return some (.insE r p e)
+  | "ir" => do let r ← R; let p ← Rd.num; let q ← R; let a ← Rd.num; let b ← Rd.num; return some (.insR r p q a b)
+  | "ea" => do let r ← R; return some (.eraseAll r)
+  | "ef" => do let r ← R; let p ← Rd.num; return some (.eraseFrom r p)
+  | "er" => do let r ← R; let a ← Rd.num; let b ← Rd.num; return some (.eraseRange r a b)
+  | "sw" => do let r ← R; let q ← R; return some (.swap r q)
+  | "ix" => do let r ← R; let i ← Rd.num; let e ← rdElement; return some (.setAt r i e)
+  | _ => return none
+
+def parseProgram (rest : String) : List (SeqOp Element) :=
+  (rest.splitOn ";").filterMap fun o => (rdSeqOp.run (words o)).1
+
+def showReg (es : List Element) : String :=
+  s!"{es.length} {hex (TString.toString es)}" ++ String.join (es.map fun e => " ; " ++ showElement e)
+
+def runProgram (rest : String) : String :=
+  let g := SeqOp.run (fun _ => []) (parseProgram rest)
+  " | ".intercalate ((List.range 4).map fun k => showReg (g k)) ++ " # k=1"
 
 def run (kind : Char) (rest : String) : Option String :=
   match kind with
@@ -26,6 +75,22 @@ def run (kind : Char) (rest : String) : Option String :=
     let ((bits, es), _) := (do let bits ← Rd.num; let n ← Rd.num; let es ← rdElements n; return (bits, es) : Rd _).run (words rest)
     let out := (step (rdBehaviour bits) {} (.writeString es)).2
     some s!"{hex out} / {hex (TString.toString es)}"
+  | 'P' => some (runProgram rest)
+  | 'G' =>
+    let ws := words rest
+    let nums := (ws.drop 1).map fun w => w.toNat?.getD 0
+    let b (i : Nat) : Byte := UInt8.ofNat (nums.getD i 0)
+    let showG (g : Glyph) : String := s!"{showGlyph g} / {hex (TString.toString [{ glyph := g }])}"
+    match ws.headD "" with
+    | "g1" => some (showG (Glyph.ofChar (b 0) ((Charset.ofCode (nums.getD 1 0)).getD .usAscii)))
+    | "g2" => some (showG (Glyph.ofArr1 (b 0)))
+    | "g3" => some (showG (Glyph.ofArr2 (b 0) (b 1)))
+    | "g4" => some (showG (Glyph.ofArr3 (b 0) (b 1) (b 2)))
+    | "gp" => some (showG (Glyph.ofCharPtr (unhex (ws.getD 1 "-") ++ [0, 0, 0])))
+    | "e1" =>
+      let (e, _) := (do let _ ← Rd.word; let c ← Rd.byte; let a ← rdAttr; return Element.ofChar c a : Rd Element).run ws
+      some s!"{showElement e} / {hex (TString.toString [e])}"
+    | _ => some "?"
   | _ => none
 
 /-- one complete control function at the head of the wire (ECMA-48 §5.4 CSI syntax; SCS; `ESC % F`) -/
@@ -82,6 +147,57 @@ def oracle (kind : Char) (_cfg rest real : String) : Option String :=
       if ts.trimAscii.toString ≠ expect then some s!"FAIL C17 to_string = {ts}, the glyph text is {expect}"
       else if decomp (w.length + es.length + 2) w texts then some "ok"
       else some s!"FAIL C17 wire {wire} is not control functions interleaved with the glyph bytes {expect}"
+    | _ => some "FAIL C17 unreadable answer"
+  | 'G' =>
+    -- the text of the constructed glyph is the character it was constructed from (documented uses only:
+    -- one well-formed NUL-terminated character for the pointer and array constructors)
+    let ws := words rest
+    let nums := (ws.drop 1).map fun w => w.toNat?.getD 0
+    let b (i : Nat) : Byte := UInt8.ofNat (nums.getD i 0)
+    let wf1 (enc : List Byte) : Bool := match enc with
+      | [a] => a < 0x80 && a != 0
+      | [a, c] => (0xC2 ≤ a && a ≤ 0xDF) && isCont c
+      | [a, c, d] => (0xE0 ≤ a && a ≤ 0xEF) && isCont c && isCont d
+      | _ => false
+    let expect : Option (List Byte) := match ws.headD "" with
+      | "g1" => some [b 0]
+      | "e1" => some [b 0]
+      | "g2" => if wf1 [b 0] then some [b 0] else none
+      | "g3" => if wf1 [b 0, b 1] then some [b 0, b 1] else none
+      | "g4" => if wf1 [b 0, b 1, b 2] then some [b 0, b 1, b 2] else none
+      | "gp" => let m := unhex (ws.getD 1 "-"); if wf1 m then some m else none
+      | _ => none
+    match expect, real.splitOn " / " with
+    | none, _ => some "ok"
+    | some t, [_, ts] => some (if ts.trimAscii.toString = hex t then "ok" else s!"FAIL C17 constructed glyph has text {ts}, constructed from {hex t}")
+    | _, _ => some "FAIL C17 unreadable answer"
+  | 'P' =>
+    -- specification side: the same program on sequences of glyph TEXTS (`Ref` text of each element; the byte
+    -- constructors yield one one-byte text per byte, `char const*` up to the first NUL); the real `to_string`
+    -- and `size` of every register must be the concatenation / the count of those texts
+    let ops := parseProgram rest
+    let allValid := ops.all fun o => match o with
+      | .set _ xs => xs.all fun e => glyphValid e.glyph
+      | .addE _ e => glyphValid e.glyph | .plusE _ _ e => glyphValid e.glyph | .insE _ _ e => glyphValid e.glyph
+      | .setAt _ _ e => glyphValid e.glyph | _ => true
+    if !allValid then some "ok" else
+    let texts := SeqOp.run (fun _ => ([] : List (List Byte))) (ops.map (SeqOp.map fun e => e.glyph.text))
+    match real.splitOn " # " with
+    | [body, k] =>
+      let regs := body.splitOn " | "
+      if regs.length ≠ 4 then some "FAIL C17 unreadable answer" else
+      let bad := (List.range 4).filterMap fun i =>
+        let r := (regs.getD i "").splitOn " ; "
+        match words (r.headD "") with
+        | [n, h] =>
+          let t := texts i
+          if n.toNat?.getD 0 ≠ t.length then some s!"register {i}: size {n}, expected {t.length}"
+          else if h ≠ hex t.flatten then some s!"register {i}: to_string {h}, expected {hex t.flatten}"
+          else none
+        | _ => some s!"register {i}: unreadable"
+      if !bad.isEmpty then some ("FAIL C17 string program: " ++ "; ".intercalate bad)
+      else if k.trimAscii.toString ≠ "k=1" then some "FAIL C17 string accessors disagree (operator[] / iterators / reverse iterators / empty / size)"
+      else some "ok"
     | _ => some "FAIL C17 unreadable answer"
   | _ => none
 
